@@ -12,7 +12,7 @@
                          fn_env c: identical functions also have the same defining environment (repair of Identical). *)
 From Coq Require Import List ZArith NArith.
 From GrolModel Require Import Containers ConstEnv.
-From GrolProofs Require Import ConstEnv_proofs.
+From GrolProofs Require Import ConstEnv_proofs ConstEnv_outcomes.
 Import ListNotations.
 
 (* for every sequence of attempts of every kind, in every scope, with registers on or off: a constant-named
@@ -44,6 +44,37 @@ Theorem C19_not_shadowed : forall c : ccfg, const_test c = true -> ccow c = true
   let r := snd (run_event c (run_events c e evs) (Ev s a)) in r = Err \/ r = Ok v \/ r = Ok XNil.
 Proof. exact constant_not_shadowed. Qed.
 
+(* ---- what the attempts themselves return ("either fail with an error or leave it unchanged").
+   K = ex and K := ex with ANY expression - a literal, an alias, a slice or a value computed from K itself, a call, a
+   closure - from any scope, after any history without del(K): the statement fails, or the value it assigns (and
+   evaluates to) is exactly the value K has *)
+Theorem C19_assignment_refused_or_same : forall c : ccfg, ccow c = true -> strict_eq c = true -> fn_env c = true ->
+  forall (K : name) (v : cval) (evs : list event) (e : env) (s : scope) (ex : expr) (define : bool),
+  constant_name K = true -> root_wf e -> root_value e K = Some v ->
+  forallb (fun ev => negb (event_deletes_name K ev)) evs = true ->
+  forall w, snd (run_event c (run_events c e evs) (Ev s (AAssign K ex define))) = Ok w -> w = v.
+Proof. exact constant_assign_refused_or_same. Qed.
+(* K++ K-- ++K --K (any non-zero step) never succeed, whatever K holds *)
+Theorem C19_increment_fails : forall c : ccfg, ccow c = true -> strict_eq c = true -> fn_env c = true ->
+  forall (K : name) (v : cval) (evs : list event) (e : env) (s : scope) (delta : Z) (pre : bool),
+  constant_name K = true -> root_wf e -> root_value e K = Some v ->
+  forallb (fun ev => negb (event_deletes_name K ev)) evs = true ->
+  delta <> 0%Z ->
+  forall w, snd (run_event c (run_events c e evs) (Ev s (AIncr K delta pre))) <> Ok w.
+Proof. exact constant_incr_fails. Qed.
+(* "the outcome is the same with registers enabled and disabled": any two configurations of the repaired code (use_reg and
+   const_test are free in both) run the same history; the constant is bound to the same value and reads the same from
+   every scope *)
+Theorem C19_register_independent : forall c1 c2 : ccfg,
+  ccow c1 = true -> strict_eq c1 = true -> fn_env c1 = true ->
+  ccow c2 = true -> strict_eq c2 = true -> fn_env c2 = true ->
+  forall (K : name) (v : cval) (evs : list event) (e : env),
+  constant_name K = true -> root_wf e -> root_value e K = Some v ->
+  forallb (fun ev => negb (event_deletes_name K ev)) evs = true ->
+  root_value (run_events c1 e evs) K = root_value (run_events c2 e evs) K /\
+  forall s : scope, snd (run_event c1 (run_events c1 e evs) (Ev s (ARead K))) =
+                    snd (run_event c2 (run_events c2 e evs) (Ev s (ARead K))).
+Proof. exact constant_register_independent. Qed.
 (* ---- the pinned code is refuted: in-place writes on large containers, the register fast paths, and the
    same-value test by == *)
 Definition K_A : name := [65]%N.                  (* "A"  *)
@@ -158,6 +189,27 @@ Example C19_ex_escaped_writers :
   snd (run_event c (run_events c e1 [EvClo n_w (IAssign (xi 99) false); EvClo n_w (ILoopList [xi 5])]) (EvClo n_w IRead)) = Ok arr3.
 Proof. vm_compute. repeat split. Qed.
 
+(* non-vacuity of the outcome theorems: PI=3.25 and A=[1..9]; PI++ / --PI fail in every scope; assigning another value
+   fails, assigning the identical value (also computed: A[0:8]+9) succeeds and evaluates to it; registers on and off leave
+   the same bindings; after del(PI) the name can be bound to something else (the exemption is real) *)
+Example C19_ex_outcomes :
+  let e0 := root_env [(K_A, arr9); (K_PI, XNum (NFlt 13))] in
+  let on := repo_ccfg true in let off := repo_ccfg false in
+  let evs := [Ev SFn (AAssign K_PI (ELit (xi 3)) false); Ev STop (AIdxSet K_A (ki 0) (xi 5)); Ev SLoop (AIncr K_PI 1 false)] in
+  snd (run_event on e0 (Ev STop (AIncr K_PI 1 false))) = Err /\
+  snd (run_event off e0 (Ev SFn (AIncr K_PI (-1) true))) = Err /\
+  snd (run_event on e0 (Ev SLoop (AIncr K_PI 1 true))) = Err /\
+  snd (run_event on e0 (Ev SFn2 (AAssign K_PI (ELit (xi 3)) true))) = Err /\
+  snd (run_event on e0 (Ev STop (AAssign K_PI (ELit (XNum (NFlt 13))) false))) = Ok (XNum (NFlt 13)) /\
+  snd (run_event off e0 (Ev SLoop (AAssign K_A (EPlus (ESlice K_A 0 8) (xi 9)) false))) = Ok arr9 /\
+  snd (run_event off e0 (Ev STop (AAssign K_A (EPlus (ESlice K_A 0 8) (xi 10)) false))) = Err /\
+  root_value (run_events on e0 evs) K_PI = root_value (run_events off e0 evs) K_PI /\
+  root_value (run_events on e0 evs) K_A = Some arr9 /\ root_value (run_events off e0 evs) K_A = Some arr9 /\
+  root_value (run_events on e0 [Ev STop (ADelete K_PI); Ev STop (AAssign K_PI (ELit (xi 3)) false)]) K_PI = Some (xi 3).
+Proof. vm_compute. repeat split. Qed.
 Print Assumptions C19_constant_stable.
 Print Assumptions C19_lookup_stable.
 Print Assumptions C19_not_shadowed.
+Print Assumptions C19_assignment_refused_or_same.
+Print Assumptions C19_increment_fails.
+Print Assumptions C19_register_independent.
